@@ -197,6 +197,7 @@ theorem enabled_query_sound_writers_partial (spec : LogSpec) (ws : List Writer) 
         have hn : n ∈ splitOn ',' (braceInner t) ∧ n ≠ defaultName := by
           split at hdel <;> simp only [List.mem_filterMap] at hdel <;>
           · obtain ⟨a, ha, hEq⟩ := hdel
+            unfold deliverOf at hEq
             by_cases hd : a = defaultName
             · simp [hd] at hEq
             · simp only [hd, ite_false] at hEq
